@@ -449,12 +449,6 @@ func (c *Client) readLoop(ctx context.Context) error {
 				return de.err
 			}
 
-			// Check if it's an echo-message.
-			if !c.Config.disableTracking {
-				de.event.Echo = (de.event.Command == PRIVMSG || de.event.Command == NOTICE) &&
-					de.event.Source != nil && de.event.Source.ID() == c.GetID()
-			}
-
 			c.receive(de.event)
 		}
 	}
